@@ -353,6 +353,52 @@ fn exchange_primitives(rep: &mut Report) {
     }
 }
 
+/// Long parents (4 million genes): complementary parents (all false / all true) make every gene
+/// of the child name its parent, so same length, position-wise origin and - for two-point - one
+/// contiguous segment from the second parent are read off directly. A recombination whose cost
+/// grows with the square of the length does not finish one evaluation within the hang budget.
+fn long_parents(seed: u64, rep: &mut Report) {
+    let len = 1usize << 22;
+    for (what, two_point, bitstring) in [("TwoPointXo/Vec<bool>", true, false), ("TwoPointXo/Bitstring", true, true), ("UniformXo/Vec<bool>", false, false), ("UniformXo/Bitstring", false, true)] {
+        vh_core::shard::set_context(format!("C10 {what} on complementary parents of {len} genes"));
+        let (a, b) = (vec![false; len], vec![true; len]);
+        let mut rng = TraceRng::new(mix(seed, fnv_str(what)));
+        let r = catch(|| -> Result<Vec<bool>, String> {
+            match (two_point, bitstring) {
+                (true, false) => TwoPointXo.recombine([a, b], &mut rng).map_err(|e| format!("{e:?}")),
+                (true, true) => TwoPointXo.recombine([Bitstring { bits: a }, Bitstring { bits: b }], &mut rng).map(|c| c.bits).map_err(|e| format!("{e:?}")),
+                (false, false) => UniformXo.recombine([a, b], &mut rng).map_err(|e| format!("{e:?}")),
+                (false, true) => UniformXo.recombine([Bitstring { bits: a }, Bitstring { bits: b }], &mut rng).map(|c| c.bits).map_err(|e| format!("{e:?}")),
+            }
+        });
+        rep.eval();
+        rep.count("long-parents");
+        rep.distinct(fnv_str(&format!("long-{what}")));
+        let problem = match &r {
+            Err(p) => Some(format!("panic: {p}")),
+            Ok(Err(e)) => Some(format!("equal-length parents were refused: {e}")),
+            Ok(Ok(c)) if c.len() != len => Some(format!("child of {} genes", c.len())),
+            Ok(Ok(c)) => {
+                let from_second = c.iter().filter(|x| **x).count();
+                // number of places where the origin changes along the child
+                let switches = c.windows(2).filter(|w| w[0] != w[1]).count();
+                if two_point && switches > 2 {
+                    Some(format!("the genes from the second parent do not form one contiguous segment ({switches} origin changes)"))
+                } else if two_point && switches == 2 && c[0] {
+                    Some("the genes from the *first* parent form the inner segment".to_string())
+                } else if !two_point && (from_second < len / 2 - len / 50 || from_second > len / 2 + len / 50) {
+                    Some(format!("{from_second} of {len} genes come from the second parent (a fair coin per position gives half, +-2 % is more than 40 standard deviations)"))
+                } else {
+                    None
+                }
+            }
+        };
+        if let Some(why) = problem {
+            rep.violation(format!("C10/{}/long-parents", if two_point { "TwoPoint" } else { "Uniform" }), || json!({"operator": what, "parent_length": len, "why": why}));
+        }
+    }
+}
+
 pub fn run(args: &Args) -> i32 {
     let draws = args.tier.pick(500_000u64, 10_000_000u64);
     let mut configs = Vec::new();
@@ -381,6 +427,7 @@ pub fn run(args: &Args) -> i32 {
     random_parents(args.seed, args.tier.pick(200_000, 4_000_000), &mut extra);
     different_lengths(&mut extra);
     exchange_primitives(&mut extra);
+    long_parents(args.seed, &mut extra);
     rep.merge(extra);
     rep.finish(
         args,
